@@ -2,6 +2,8 @@
 
 package reassembly
 
+import "github.com/gopacket/gopacket"
+
 // Read-only accessors for the verification harness (build tag verif only).
 
 // VerifPagesUsed reports the number of pages the assembler's page cache has handed out.
@@ -34,4 +36,18 @@ func VerifConnPages(p *StreamPool) (queued, saved, counted []int) {
 		c.mu.Unlock()
 	}
 	return
+}
+
+// VerifHalfClosed reports, for the connection a packet with the given flows belongs to, whether the
+// half connection in the packet's direction and the reverse one are closed.
+func VerifHalfClosed(p *StreamPool, netFlow, tcpFlow gopacket.Flow) (found, halfClosed, revClosed bool) {
+	p.mu.RLock()
+	conn, half, rev := p.getHalf(key{netFlow, tcpFlow})
+	p.mu.RUnlock()
+	if conn == nil {
+		return false, false, false
+	}
+	conn.mu.Lock()
+	defer conn.mu.Unlock()
+	return true, half.closed, rev.closed
 }
